@@ -19,6 +19,7 @@ import (
 func init() {
 	vrt.Register("C20_truncate", Truncate)
 	vrt.Register("C20_truncate_defaults", TruncateDefaults)
+	vrt.Register("C20_truncate_calls_independent", TruncateCallsIndependent)
 	vrt.Register("C20_truncate_template", TruncateTemplate)
 	vrt.Register("C20_truncate_runes", TruncateRunes)
 	vrt.Register("C20_html_escape", HTMLEscape)
@@ -82,6 +83,34 @@ func TruncateDefaults() {
 	size := vrt.Int()
 	got = text.Truncate(s, hctx.Map{"size": size})
 	truncateLaws(s, size, "...", got)
+}
+
+// every call stands alone: the options an earlier call was given (or left out) do
+// not change what a later one returns
+func TruncateCallsIndependent() {
+	s := vrt.Bytes(vrt.IntRange(0, 1+vrt.Tier()))
+	size1 := vrt.IntRange(2, 3)
+	trail1 := "~"
+	switch vrt.Choice(4) {
+	case 0:
+		text.Truncate("abcdef", hctx.Map{"size": size1, "trail": trail1})
+	case 1:
+		text.Truncate("abcdef", hctx.Map{"size": size1})
+	case 2:
+		text.Truncate("abcdef", hctx.Map{"trail": trail1})
+	default:
+		text.Truncate("abcdef", hctx.Map{"size": 120, "trail": ""})
+	}
+	long := strings.Repeat("é", 49) + s
+	switch vrt.Choice(3) {
+	case 0: // no options: 50 and "..."
+		truncateLaws(long, 50, "...", text.Truncate(long, hctx.Map{}))
+	case 1: // only a size: the trail is "..."
+		size := vrt.IntRange(0, 5)
+		truncateLaws(s, size, "...", text.Truncate(s, hctx.Map{"size": size}))
+	default: // only a trail: the size is 50
+		truncateLaws(long, 50, "~", text.Truncate(long, hctx.Map{"trail": "~"}))
+	}
 }
 
 func htmlEsc(s string) string {
